@@ -960,11 +960,15 @@ func candidates(t *node) []*node {
 		if x.Kind == kFilter && len(x.Kids) > 1 {
 			edit(pos, func(y, _ *node, _ int) *node { y.Kids = y.Kids[:1]; return y })
 		}
-		if x.Kind != kProbe {
-			edit(pos, func(y, _ *node, _ int) *node { return &node{Kind: kProbe} })
+		if x.Kind != kProbe { // replace the subtree by a probe (every scope, simplest first)
+			for sc := scAbsent; sc <= scBoth; sc++ {
+				sc := sc
+				edit(pos, func(y, _ *node, _ int) *node { return &node{Kind: kProbe, Scope: sc} })
+			}
 		}
-		if x.Scope != scAbsent {
-			edit(pos, func(y, _ *node, _ int) *node { y.Scope = scAbsent; return y })
+		for sc := scAbsent; sc < x.Scope; sc++ { // a simpler scope
+			sc := sc
+			edit(pos, func(y, _ *node, _ int) *node { y.Scope = sc; return y })
 		}
 		if x.Agg {
 			edit(pos, func(y, _ *node, _ int) *node { y.Agg = false; return y })
